@@ -33,10 +33,14 @@ func (d *def) sexp() sx.Sexp {
 	}
 	as := make([]sx.Sexp, len(d.attrs))
 	for i, a := range d.attrs {
-		as[i] = sx.L(sx.A(a.name), a.ty.sexp(), sx.A(a.kind), optVal(a.dflt))
+		xs := []sx.Sexp{sx.A(a.name), a.ty.sexp(), sx.A(a.kind), optVal(a.dflt)}
 		if a.override {
-			as[i] = sx.L(sx.A(a.name), a.ty.sexp(), sx.A(a.kind), optVal(a.dflt), sx.A("o"))
+			xs = append(xs, sx.A("o"))
 		}
+		if a.final != "" {
+			xs = append(xs, sx.A(a.final))
+		}
+		as[i] = sx.L(xs...)
 	}
 	eq := sx.A("-")
 	if d.eqKind != "-" {
@@ -153,6 +157,12 @@ func genAttr(r *rand.Rand, name string) attr {
 	default:
 		give = r.Intn(5) < 2
 	}
+	switch f := r.Intn(40); {
+	case f < 4:
+		a.final = "f"
+	case f == 4:
+		a.final = "nf" // an error on a constant
+	}
 	if give {
 		v := witness(r, a.ty)
 		if r.Intn(30) == 0 {
@@ -235,6 +245,9 @@ func genChain(r *rand.Rand) []def {
 				}
 				if !dup {
 					a := attr{name: pa.name, ty: pa.ty, kind: pa.kind, dflt: pa.dflt, override: r.Intn(12) != 0}
+					if r.Intn(10) == 0 {
+						a.final = "f"
+					}
 					switch r.Intn(6) {
 					case 0:
 						if pa.ty.k == "opt" {
